@@ -11,7 +11,7 @@
     [refs_ok c] (round 3, groups and [requires]): group ids are unique, every group member is an argument,
     every id named by a [requires] rule of an argument or of a group exists -- what debug_asserts.rs checks. *)
 From ClapModel Require Import Base.Bytes Base.Machine Parse.Cmd Parse.Build Parse.Valid Parse.Matcher Parse.Errors Parse.Validator Parse.Parser.
-From ClapModel Require Import Gen.HelpTables Help.UsageModel Help.HelpModel Help.HelpReqs Help.HelpProofs Help.HelpLevel Help.HelpSpecVals Help.HelpDispatch Help.HelpUsage Help.HelpGlobals Help.HelpTemplate.
+From ClapModel Require Import Gen.HelpTables Help.UsageModel Help.HelpModel Help.HelpReqs Help.HelpProofs Help.HelpLevel Help.HelpSpecVals Help.HelpDispatch Help.HelpUsage Help.HelpGlobals Help.HelpTemplate Help.HelpHeadings.
 From RecordUpdate Require Import RecordSet.
 Import RecordSetNotations.
 Open Scope N_scope.
@@ -402,3 +402,30 @@ Theorem C12_template_example :
            ([97], [s_commands; s_arguments; s_options; [72]]); ([116], [[]]) ].
 Proof. exact tp_renders. Qed.
 Print Assumptions C12_template_example.
+
+(** ---- round 3: [next_help_heading] / [subcommand_help_heading] ---- *)
+
+(** builder calls in the user's order ([apply_headings] = the heading part of [arg_internal]): an argument without
+    a heading of its own, added after [next_help_heading(h)] with no other such call in between, carries [h] -- so
+    [C12_lists_visible_args] lists it in the section titled [h] ([arg_section_title]); one with its own heading keeps it *)
+Theorem C12_next_heading_applies : forall pre h mid a post current,
+  only_args mid -> ha_heading a = None ->
+  In (a <| ha_heading := h |>) (apply_headings (pre ++ BNextHeading h :: mid ++ BArg a :: post) current).
+Proof. exact next_heading_applies. Qed.
+Print Assumptions C12_next_heading_applies.
+
+Theorem C12_own_heading_wins : forall pre a post current g,
+  ha_heading a = Some g -> In a (apply_headings (pre ++ BArg a :: post) current).
+Proof. exact own_heading_wins. Qed.
+Print Assumptions C12_own_heading_wins.
+
+(** end to end: [--a], next_help_heading("N"), [--b], [--c] (own heading "H"), next_help_heading(None), [--d],
+    subcommand_help_heading("S"): sections S, Options (a, d, help), N (b), H (c) *)
+Theorem C12_headings_example :
+  match render_help len nh_cmd false 80 with
+  | Some s => map (fun sec => (s_title sec, map r_id (s_rows sec))) (scr_sections s)
+  | None => []
+  end
+  = [ ([83], [[115]; s_help]); (s_options, [[97]; [100]; s_help]); ([78], [[98]]); ([72], [[99]]) ].
+Proof. exact nh_renders. Qed.
+Print Assumptions C12_headings_example.
